@@ -7,7 +7,13 @@
    (C05_randomized_svd_*_partial, C05_interface_randomized_*_partial; C05_range_finder_covers derives the hypothesis from the
    reduced-QR contract and a spanning sketch); svd_interface for ANY back end incl. a callable (C05_interface_generic,
    C05_interface_masked_generic), the non_negative option for every method / mask / flip (C05_interface_nonneg), and the
-   post-processing pipeline as a trace re-derived from the Python source on every run (C05_interface_traced). *)
+   post-processing pipeline as a trace re-derived from the Python source on every run (C05_interface_traced).
+   Round 7 (from "ROUND 7" on): the transposed randomized branch's singular values (C05_randomized_S_true_transposed_partial); COMPLEX scalars as
+   C = R x R - error identity, Eckart-Young, uniqueness of the singular values transported through the real embedding (C05_complex_trunc_error,
+   _eckart_young, _singular_values_unique), truncated_svd of the model on complex scalars (C05_complex_truncated_best, _best_gen, _S_true), the list-level
+   conjugate-aware svd_flip (C05_complex_flip_model, _signs_unit, _flip_u_sign / _v_sign), the interface end to end over C
+   (C05_complex_interface_truncated_e2e, _e2e_sign, _e2e_gen) and the randomized lifting step over C (C05_complex_randomized_lift*_partial); more decision
+   logic under the per-run ast tie (Proofs/SvdDecisions2.v: C05_nn_pair_factored, C05_make_nn_factored, C05_fit_factored, C05_impute_factored). *)
 From Coq Require Import List Arith Bool Reals QArith.
 From TLV Require Import Base.Ops Base.Tensor Base.RSum Model.Svd Proofs.SvdProofsAux Proofs.SvdProofs
   Proofs.SvdNNProofs Proofs.SvdSymeigProofs Proofs.SvdRandProofs Proofs.SvdInterfaceProofs
@@ -1400,3 +1406,70 @@ Theorem C05_complex_randomized_lift_best_partial : forall m n c p (Mr Mi Qr Qi B
      forall t, t < p -> s t = s' t).
 Proof. exact complex_randomized_lift_best. Qed.
 Print Assumptions C05_complex_randomized_lift_best_partial.
+
+(* --- the SIGN CONVENTION over C, list level (FULL): with ph = np.sign on complex numbers (sign_like: unit modulus, sign_exact: z * conj(ph z) = |z|,
+       both for non-zero z) and lt the magnitude comparison, after the U-based flip every column of U - after the V-based flip every row of V -
+       of a Hermitian-orthonormal factor has an entry that is REAL, POSITIVE and of largest magnitude in that column / row ("the largest-magnitude
+       entry of each deciding vector is positive"); with C05_complex_flip_model + C05_complex_signs_unit: without changing the product --- *)
+Theorem C05_complex_flip_u_sign : forall (ph : CR -> CR) (lt : CR -> CR -> bool), sign_like ph -> sign_exact ph -> abs_lt lt ->
+  forall d1 c r d2 (U V : list (list CR)),
+  rect d1 c U -> rect r d2 V -> 1 <= d1 -> herm_cols d1 c (cre U) (cim U) ->
+  let '(U2, _) := flipR ph lt U V true in
+  forall t, t < c -> exists i, i < d1 /\ cim U2 i t = 0%R /\ (0 < cre U2 i t)%R /\
+    forall i', i' < d1 -> ((cre U2 i' t)^2 + (cim U2 i' t)^2 <= (cre U2 i t)^2)%R.
+Proof. exact complex_flip_u_sign. Qed.
+Print Assumptions C05_complex_flip_u_sign.
+
+Theorem C05_complex_flip_v_sign : forall (ph : CR -> CR) (lt : CR -> CR -> bool), sign_like ph -> sign_exact ph -> abs_lt lt ->
+  forall d1 c r d2 (U V : list (list CR)),
+  rect d1 c U -> rect r d2 V -> 1 <= d1 -> 1 <= d2 -> herm_rows r d2 (cre V) (cim V) ->
+  let '(_, V2) := flipR ph lt U V false in
+  forall t, t < r -> exists j, j < d2 /\ cim V2 t j = 0%R /\ (0 < cre V2 t j)%R /\
+    forall j', j' < d2 -> ((cre V2 t j')^2 + (cim V2 t j')^2 <= (cre V2 t j)^2)%R.
+Proof. exact complex_flip_v_sign. Qed.
+Print Assumptions C05_complex_flip_v_sign.
+
+Example C05_sign_exact_satisfiable : sign_exact (fun z => ((fst z / sqrt (norm2 z))%R, (snd z / sqrt (norm2 z))%R)).
+Proof. exact sign_exact_witness. Qed.
+
+(* truncated_svd of the model on complex scalars for EVERY n_eigenvecs (None, 0, > min(shape), > max(shape)); k = the clamped request, f = the
+   full_matrices value the code chooses, p = min(k, min(shape)) = the number of returned singular values (FULL) *)
+Theorem C05_complex_truncated_best_gen : forall (oracle : bool -> triple CR) d1 d2 (Mr Mi : nat -> nat -> R) n,
+  (forall f, csvd_contract d1 d2 Mr Mi f (oracle f)) ->
+  let k := n_kept d1 d2 n in
+  let f := full_flag d1 d2 n in
+  let mn := Nat.min d1 d2 in
+  let So := snd (fst (oracle f)) in
+  let p := Nat.min k mn in
+  let '(U, Sg, V) := truncated_svd oracle d1 d2 n in
+  let Er := fun i j => (Mr i j - cprod_re p (cre U) (cim U) (cre V) (cim V) (sre Sg) i j)%R in
+  let Ei := fun i j => (Mi i j - cprod_im p (cre U) (cim U) (cre V) (cim V) (sre Sg) i j)%R in
+  Sg = firstn k So /\ length Sg = p /\
+  herm_cols d1 (Nat.min k (if f then d1 else mn)) (cre U) (cim U) /\
+  herm_rows (Nat.min k (if f then d2 else mn)) d2 (cre V) (cim V) /\
+  cfrob2 d1 d2 Er Ei = rsum (mn - p) (fun t => ((sre So (p + t)%nat)^2)%R) /\
+  (forall Br Bi, crank_le d1 d2 k Br Bi ->
+     (cfrob2 d1 d2 Er Ei <= cfrob2 d1 d2 (fun i j => (Mr i j - Br i j)%R) (fun i j => (Mi i j - Bi i j)%R))%R).
+Proof. exact complex_truncated_best_gen. Qed.
+Print Assumptions C05_complex_truncated_best_gen.
+
+(* END TO END over C for EVERY n_eigenvecs (None, 0, > min(shape), > max(shape)), d1 >= 1, any flip setting, ph = np.sign, lt = magnitude comparison (FULL) *)
+Theorem C05_complex_interface_truncated_e2e_gen : forall (ph : CR -> CR) (lt : CR -> CR -> bool) (oracle : bool -> triple CR)
+    (funs : fname -> nat -> list (list CR) -> triple CR) d1 d2 (Ml : list (list CR)) n (flip ub : bool) U S V,
+  sign_like ph -> abs_lt lt ->
+  (forall f, csvd_contract d1 d2 (cre Ml) (cim Ml) f (oracle f)) ->
+  funs FTruncated 0 Ml = truncated_svd oracle d1 d2 n -> 1 <= d1 ->
+  svd_interface_flip (flipR ph lt) funs MTruncated Ml flip ub = Ok (U, S, V) ->
+  let k := n_kept d1 d2 n in
+  let mn := Nat.min d1 d2 in
+  let So := snd (fst (oracle (full_flag d1 d2 n))) in
+  let p := Nat.min k mn in
+  let Er := fun i j => (cre Ml i j - cprod_re p (cre U) (cim U) (cre V) (cim V) (sre S) i j)%R in
+  let Ei := fun i j => (cim Ml i j - cprod_im p (cre U) (cim U) (cre V) (cim V) (sre S) i j)%R in
+  S = firstn k So /\ length S = p /\
+  herm_cols d1 (Nat.min k d1) (cre U) (cim U) /\ herm_rows (Nat.min k d2) d2 (cre V) (cim V) /\
+  cfrob2 d1 d2 Er Ei = rsum (mn - p) (fun t => ((sre So (p + t)%nat)^2)%R) /\
+  (forall Br Bi, crank_le d1 d2 k Br Bi ->
+     (cfrob2 d1 d2 Er Ei <= cfrob2 d1 d2 (fun i j => (cre Ml i j - Br i j)%R) (fun i j => (cim Ml i j - Bi i j)%R))%R).
+Proof. exact complex_interface_truncated_e2e_gen. Qed.
+Print Assumptions C05_complex_interface_truncated_e2e_gen.
